@@ -1,3 +1,462 @@
-//! C11 — not yet built
-use crate::ctx::Ctx;
-pub fn run(c: &mut Ctx) { c.notes.push("C11: not implemented".into()); }
+//! C11 — editing operations keep the document sound.
+//! Random programs of public editing calls on random documents (c10's generator; 1 in 4 saved and
+//! re-loaded). After EVERY step: (a) correspondence of the whole document + return value against the
+//! Lean `step` started from the real pre-state, (b) the oracle: allocation invariant, freshness,
+//! per-operation frame conditions, prune = exactly the unreachable objects, delete leaves no
+//! reference (leftovers classified structurally by where they sit), page-tree Counts.
+use crate::codec::*;
+use crate::ctx::{guard, Ctx};
+use crate::props::c10::{self, collect_refs, gen_doc, gen_obj, oracle_pages, reachable, show_doc, through_file, Dangling, Opts, RefPool};
+use crate::rng::Rng;
+use lopdf::{Dictionary, Document, Object, ObjectId};
+use serde_json::json;
+use std::collections::{BTreeMap, BTreeSet};
+
+#[derive(Clone, Debug)]
+enum Op { NewId, Add(Object), Set(ObjectId, Object), Del(ObjectId), Prune, DelZero, Renum(u32), DelPages(Vec<u32>), AddContent(ObjectId, Vec<u8>) }
+
+fn op_text(op: &Op) -> String {
+    match op {
+        Op::NewId => "newid".into(),
+        Op::Add(o) => format!("add {}", show_obj(o)),
+        Op::Set(id, o) => format!("set {} {} {}", id.0, id.1, show_obj(o)),
+        Op::Del(id) => format!("del {} {}", id.0, id.1),
+        Op::Prune => "prune".into(),
+        Op::DelZero => "delzero".into(),
+        Op::Renum(s) => format!("renum {}", s),
+        Op::DelPages(v) => format!("delpages {}{}", v.len(), v.iter().map(|n| format!(" {}", n)).collect::<String>()),
+        Op::AddContent(id, c) => format!("addcontent {} {} {}", id.0, id.1, hex_tok(c)),
+    }
+}
+fn ids_text(v: &[ObjectId]) -> String { format!("{}{}", v.len(), v.iter().map(|(n, g)| format!(" {}_{}", n, g)).collect::<String>()) }
+
+/// run the real call; returns the protocol text of the return value
+fn apply(doc: &mut Document, op: &Op) -> String {
+    match op {
+        Op::NewId => { let id = doc.new_object_id(); format!("id {}_{}", id.0, id.1) }
+        Op::Add(o) => { let id = doc.add_object(o.clone()); format!("id {}_{}", id.0, id.1) }
+        Op::Set(id, o) => { doc.set_object(*id, o.clone()); "unit".into() }
+        Op::Del(id) => match doc.delete_object(*id) { Some(o) => format!("some {}", show_obj(&o)), None => "none".into() },
+        Op::Prune => format!("ids {}", ids_text(&doc.prune_objects())),
+        Op::DelZero => format!("ids {}", ids_text(&doc.delete_zero_length_streams())),
+        Op::Renum(s) => { doc.renumber_objects_with(*s); "unit".into() }
+        Op::DelPages(v) => { doc.delete_pages(v); "unit".into() }
+        Op::AddContent(id, c) => match doc.add_page_contents(*id, c.clone()) { Ok(()) => "unit".into(), Err(_) => "err".into() },
+    }
+}
+
+// ---------------------------------------------------------------- what delete_object leaves behind (shape of F-C11-a)
+
+#[derive(Default, Debug)]
+struct Left { kinds: BTreeSet<&'static str>, count: usize }
+
+fn is_ref_to(o: &Object, id: ObjectId) -> bool { matches!(o, Object::Reference(r) if *r == id) }
+fn count_all(o: &Object, id: ObjectId) -> usize { let mut v = vec![]; collect_refs(o, &mut v); v.iter().filter(|r| **r == id).count() }
+
+/// predicted leftovers inside a visited value
+fn predict_value(o: &Object, id: ObjectId, l: &mut Left) {
+    match o {
+        Object::Array(a) => {
+            let m = a.iter().filter(|x| is_ref_to(x, id)).count();
+            if m >= 2 { l.kinds.insert("array-duplicate"); l.count += m - 1; }
+            for x in a { if !is_ref_to(x, id) { predict_value(x, id, l); } }
+        }
+        Object::Dictionary(d) => { for (_, v) in d.iter() { if !is_ref_to(v, id) { predict_value(v, id, l); } } }
+        Object::Stream(s) => {
+            for (_, v) in s.dict.iter() { if is_ref_to(v, id) { l.kinds.insert("stream-dict"); l.count += 1; } else { predict_value(v, id, l); } }
+        }
+        Object::Reference(r) => { if *r == id { l.kinds.insert("top-level-reference"); l.count += 1; } }
+        _ => {}
+    }
+}
+/// what `delete_object`'s action does to one node (first array occurrence, all direct dictionary entries;
+/// nothing on a stream's own dictionary or on a bare reference)
+fn code_action(o: &Object, id: ObjectId) -> Object {
+    match o {
+        Object::Array(a) => { let mut v = a.clone(); if let Some(i) = v.iter().position(|x| is_ref_to(x, id)) { v.remove(i); } Object::Array(v) }
+        Object::Dictionary(d) => { let mut n = d.clone(); let keys: Vec<Vec<u8>> = d.iter().filter(|(_, v)| is_ref_to(v, id)).map(|(k, _)| k.clone()).collect(); for k in keys { n.remove(&k); } Object::Dictionary(n) }
+        x => x.clone(),
+    }
+}
+/// references still followed from a visited value (after the action was applied top-down)
+fn refs_after_action(o: &Object, id: ObjectId, out: &mut Vec<ObjectId>) {
+    match code_action(o, id) {
+        Object::Array(a) => for x in &a { refs_after_action(x, id, out) },
+        Object::Dictionary(d) => for (_, v) in d.iter() { refs_after_action(v, id, out) },
+        Object::Stream(s) => for (_, v) in s.dict.iter() { refs_after_action(v, id, out) },
+        Object::Reference(r) => out.push(r),
+        _ => {}
+    }
+}
+/// where references to `id` will survive `delete_object(id)` — the exact shape of the known finding:
+/// direct trailer entries, direct stream-dictionary entries, later duplicates in an array, bare
+/// top-level reference objects, and every holder the traversal does not reach (unreachable before, or
+/// reachable only through the references that were just stripped)
+fn predict_leftovers(doc: &Document, id: ObjectId) -> Left {
+    let mut l = Left::default();
+    let mut todo = vec![];
+    for (_, v) in doc.trailer.iter() { if is_ref_to(v, id) { l.kinds.insert("trailer"); l.count += 1; todo.push(id); } else { predict_value(v, id, &mut l); refs_after_action(v, id, &mut todo); } }
+    let mut reach: BTreeSet<ObjectId> = BTreeSet::new();
+    while let Some(k) = todo.pop() {
+        if !reach.insert(k) { continue; }
+        if let Some(o) = doc.objects.get(&k) { refs_after_action(o, id, &mut todo); }
+    }
+    for (k, o) in doc.objects.iter() {
+        if *k == id { continue; }
+        if reach.contains(k) { predict_value(o, id, &mut l); }
+        else { let n = count_all(o, id); if n > 0 { l.kinds.insert("unreachable-holder"); l.count += n; } }
+    }
+    l
+}
+fn actual_leftovers(doc: &Document, id: ObjectId) -> usize {
+    let mut n = 0;
+    for (_, v) in doc.trailer.iter() { n += count_all(v, id); }
+    for (_, o) in doc.objects.iter() { n += count_all(o, id); }
+    n
+}
+/// the object with every reference to `id` stripped (all array occurrences, all dictionary entries)
+fn strip_all(o: &Object, id: ObjectId, top: bool) -> Object {
+    match o {
+        Object::Array(a) => Object::Array(a.iter().filter(|x| !is_ref_to(x, id)).map(|x| strip_all(x, id, false)).collect()),
+        Object::Dictionary(d) => { let mut n = Dictionary::new(); for (k, v) in d.iter() { if !is_ref_to(v, id) { n.set(k.clone(), strip_all(v, id, false)); } } Object::Dictionary(n) }
+        Object::Stream(s) => { let mut s2 = s.clone(); let mut n = Dictionary::new(); for (k, v) in s.dict.iter() { n.set(k.clone(), if is_ref_to(v, id) { v.clone() } else { strip_all(v, id, false) }); } s2.dict = n; Object::Stream(s2) }
+        x => { let _ = top; x.clone() }
+    }
+}
+
+// ---------------------------------------------------------------- invariants
+
+fn max_num(doc: &Document) -> u32 { doc.objects.keys().map(|k| k.0).max().unwrap_or(0) }
+
+/// Count of every Pages node = number of leaf pages below it (own DFS over direct Kids)
+fn counts_ok(doc: &Document) -> bool {
+    fn leaves(doc: &Document, id: ObjectId, depth: usize) -> Option<i64> {
+        if depth > 60 { return None; }
+        match doc.objects.get(&id) {
+            Some(Object::Dictionary(d)) => match d.get(b"Type") {
+                Ok(Object::Name(n)) if n == b"Page" => Some(1),
+                Ok(Object::Name(n)) if n == b"Pages" => {
+                    let mut s = 0;
+                    if let Ok(Object::Array(kids)) = d.get(b"Kids") { for k in kids { if let Object::Reference(kid) = k { s += leaves(doc, *kid, depth + 1)?; } } }
+                    match d.get(b"Count") { Ok(Object::Integer(c)) if *c == s => Some(s), _ => None }
+                }
+                _ => Some(0),
+            },
+            _ => Some(0),
+        }
+    }
+    if let Ok(Object::Reference(cat)) = doc.trailer.get(b"Root") {
+        if let Some(Object::Dictionary(c)) = doc.objects.get(cat) {
+            if let Ok(Object::Reference(root)) = c.get(b"Pages") { return leaves(doc, *root, 0).is_some(); }
+        }
+    }
+    true
+}
+fn same(a: &Object, b: &Object) -> bool { a == b }
+
+struct StepCtx<'a> { stream: &'a str, step: usize, op: String }
+
+fn fail(c: &mut Ctx, sc: &StepCtx, sig: &str, what: &str, before: &Document) {
+    let req = format!("step {} {}", sc.op, show_doc(before));
+    c.oracle_fail(sig, what, json!({"stream": sc.stream, "step": sc.step, "op": sc.op, "request": if req.len() < 900 { req } else { format!("{}…", &req[..900]) }}));
+}
+
+/// the oracle for one step on the REAL documents
+fn oracle(c: &mut Ctx, sc: &StepCtx, op: &Op, before: &Document, after: &Document, ret: &str) {
+    // allocation invariant
+    if before.max_id >= max_num(before) && after.max_id < max_num(after) {
+        fail(c, sc, &format!("inv:max_id-below-object-number:{}", sc.op.split(' ').next().unwrap_or("")), "max_id is smaller than an object number", before);
+    }
+    let unchanged = |c: &mut Ctx, except: &[ObjectId], sig: &str| {
+        for (k, o) in before.objects.iter() {
+            if except.contains(k) { continue; }
+            if after.objects.get(k).map(|a| same(a, o)) != Some(true) { fail(c, sc, sig, "an operation that is not a deletion removed or altered an object", before); return; }
+        }
+        if after.trailer != before.trailer { fail(c, sc, sig, "trailer altered", before); }
+    };
+    match op {
+        Op::NewId => {
+            let id = (after.max_id, 0u16);
+            if before.objects.keys().any(|k| k.0 >= id.0) || ret != format!("id {}_0", id.0) { fail(c, sc, "fresh:new_object_id", "allocated id is not above every existing number", before); }
+            unchanged(c, &[], "frame:new_object_id");
+            if after.objects.len() != before.objects.len() { fail(c, sc, "frame:new_object_id", "object count changed", before); }
+        }
+        Op::Add(o) => {
+            let id = (after.max_id, 0u16);
+            if before.objects.contains_key(&id) || before.objects.keys().any(|k| k.0 >= id.0) { fail(c, sc, "fresh:add_object", "allocated id collides with / is not above existing objects", before); }
+            if after.objects.get(&id).map(|x| same(x, o)) != Some(true) || after.objects.len() != before.objects.len() + 1 { fail(c, sc, "frame:add_object", "object not stored under the fresh id", before); }
+            unchanged(c, &[], "frame:add_object");
+        }
+        Op::Set(id, o) => {
+            if after.objects.get(id).map(|x| same(x, o)) != Some(true) { fail(c, sc, "frame:set_object", "object not stored", before); }
+            unchanged(c, &[*id], "frame:set_object");
+        }
+        Op::Del(id) => {
+            check_delete(c, sc, before, after, &[*id], true);
+            let want = before.objects.contains_key(id);
+            if (ret != "none") != want { fail(c, sc, "del:return", "return value does not say whether the object existed", before); }
+        }
+        Op::DelZero => {
+            let empties: Vec<ObjectId> = before.objects.iter().filter(|(_, o)| matches!(o, Object::Stream(s) if s.content.is_empty())).map(|(k, _)| *k).collect();
+            if ret != format!("ids {}", ids_text(&empties)) { fail(c, sc, "delzero:ids", "returned ids are not the zero-length streams", before); }
+            check_delete(c, sc, before, after, &empties, true);
+        }
+        Op::Prune => {
+            let reach = reachable(before);
+            let want: Vec<ObjectId> = before.objects.keys().filter(|k| !reach.contains(k)).cloned().collect();
+            if ret != format!("ids {}", ids_text(&want)) { fail(c, sc, "prune:exact", "pruned ids are not exactly the unreachable objects", before); }
+            for k in &want { if after.objects.contains_key(k) { fail(c, sc, "prune:exact", "unreachable object kept", before); break; } }
+            unchanged(c, &want, "frame:prune_objects");
+            c.count_n("pruned_objects", want.len() as u64);
+        }
+        Op::Renum(start) => {
+            if after.objects.len() != before.objects.len() {
+                let pages: Vec<ObjectId> = before.page_iter().collect();
+                let distinct: BTreeSet<ObjectId> = pages.iter().cloned().collect();
+                if distinct.len() != pages.len() { c.count("renumber_duplicate_page"); fail(c, sc, "frame:renumber:duplicate-page", "renumbering lost an object (a page is enumerated twice)", before); }
+                else { fail(c, sc, "frame:renumber", "object count changed", before); }
+            }
+            let n = after.objects.len() as u32;
+            if n > 0 && after.max_id != start + n - 1 { fail(c, sc, "inv:renumber-max_id", "max_id is not the last number", before); }
+        }
+        Op::DelPages(nums) => {
+            let pages = oracle_pages(before);
+            let real_pages: Vec<ObjectId> = before.page_iter().collect();
+            if pages != real_pages {
+                // the program made the page tree malformed (e.g. set_object replaced a page): only correspondence here
+                c.count("delete_pages_on_malformed_tree");
+                return;
+            }
+            let gone: Vec<ObjectId> = nums.iter().filter_map(|n| if *n >= 1 { pages.get(*n as usize - 1).cloned() } else { None }).collect();
+            let want: Vec<ObjectId> = pages.iter().filter(|p| !gone.contains(p)).cloned().collect();
+            let got = oracle_pages(after);
+            let clean = gone.iter().all(|g| predict_leftovers(before, *g).count == 0);
+            if clean {
+                if got != want { fail(c, sc, "delete_pages:pages", "remaining pages are not the old pages minus the deleted ones", before); }
+                if counts_ok(before) && !counts_ok(after) { fail(c, sc, "delete_pages:count", "a Pages node's Count is not its number of leaf pages", before); }
+                c.count("delete_pages_checked");
+            }
+            check_delete(c, sc, before, after, &gone, false);
+        }
+        Op::AddContent(page, content) => {
+            if ret == "unit" {
+                let nid = (after.max_id, 0u16);
+                if before.objects.keys().any(|k| k.0 >= nid.0) { fail(c, sc, "fresh:add_page_contents", "content stream id not fresh", before); }
+                let ok_stream = matches!(after.objects.get(&nid), Some(Object::Stream(s)) if &s.content == content && matches!(s.dict.get(b"Length"), Ok(Object::Integer(l)) if *l == content.len() as i64));
+                if !ok_stream { fail(c, sc, "add_page_contents:stream", "new content stream wrong (content / Length)", before); }
+                // the page (following top-level references) keeps everything but Contents; Contents = old list + new ref
+                let mut pid = *page; let mut hops = 0;
+                while let Some(Object::Reference(r)) = before.objects.get(&pid) { pid = *r; hops += 1; if hops > 200 { break; } }
+                if let (Some(Object::Dictionary(b)), Some(Object::Dictionary(a))) = (before.objects.get(&pid), after.objects.get(&pid)) {
+                    let old: Vec<Object> = match b.get(b"Contents") { Ok(Object::Reference(r)) => vec![Object::Reference(*r)], Ok(Object::Array(v)) => v.clone(), _ => vec![] };
+                    let mut wantl = old; wantl.push(Object::Reference(nid));
+                    if a.get(b"Contents").ok() != Some(&Object::Array(wantl)) { fail(c, sc, "add_page_contents:list", "Contents is not the old list plus the new stream", before); }
+                    for (k, v) in b.iter() { if k != b"Contents" && a.get(k).ok() != Some(v) { fail(c, sc, "frame:add_page_contents", "page entry altered", before); break; } }
+                } else { fail(c, sc, "frame:add_page_contents", "page is no dictionary", before); }
+                unchanged(c, &[pid], "frame:add_page_contents");
+                c.count("add_page_contents_ok");
+            } else { c.count("add_page_contents_err"); }
+        }
+    }
+}
+
+/// after deleting `ids`: gone, no reference left except in the positions of the known finding, everything else only stripped
+fn check_delete(c: &mut Ctx, sc: &StepCtx, before: &Document, after: &Document, ids: &[ObjectId], frame: bool) {
+    let mut any_left = false;
+    for id in ids {
+        if after.objects.contains_key(id) { fail(c, sc, "del:still-there", "deleted object still present", before); }
+        if !before.objects.contains_key(id) { continue; }
+        let left = actual_leftovers(after, *id);
+        if left == 0 { c.count("delete_clean"); continue; }
+        any_left = true;
+        // with several deletions in one call later ones see the earlier ones' result: classify on `before` only for single deletions
+        let p = predict_leftovers(before, *id);
+        if ids.len() == 1 && left != p.count {
+            fail(c, sc, "ref-left-in:other", &format!("{} references to the deleted object left, {} explained by the known positions {:?}", left, p.count, p.kinds), before);
+        } else if p.kinds.is_empty() {
+            if ids.len() == 1 { fail(c, sc, "ref-left-in:other", "reference to the deleted object left in an unexplained position", before); }
+            else { c.count("multi_delete_leftover_unclassified"); }
+        } else {
+            for k in &p.kinds { c.count(&format!("leftover.{}", k)); fail(c, sc, &format!("ref-left-in:{}", k), "delete_object left a reference to the deleted object behind", before); }
+        }
+    }
+    if frame && !any_left && ids.len() == 1 && before.objects.contains_key(&ids[0]) {
+        let id = ids[0];
+        for (k, o) in before.objects.iter() {
+            if *k == id { continue; }
+            if after.objects.get(k) != Some(&strip_all(o, id, true)) { fail(c, sc, "del:frame", "an object other than the deleted one changed beyond losing references to it", before); break; }
+        }
+    }
+}
+
+// ---------------------------------------------------------------- programs
+
+fn gen_op(r: &mut Rng, doc: &Document, safe_only: bool) -> Option<Op> {
+    let ids: Vec<ObjectId> = doc.objects.keys().cloned().collect();
+    let rp_ids: Vec<ObjectId> = if ids.is_empty() { vec![(1, 0)] } else { ids.clone() };
+    let rp = RefPool { ids: &rp_ids, dangling: Dangling::Safe };
+    let pages = oracle_pages(doc);
+    let safe = |id: &ObjectId| predict_leftovers(doc, *id).count == 0;
+    Some(match r.below(12) {
+        0 => Op::NewId,
+        1 | 2 => Op::Add(gen_obj(r, 0, &rp)),
+        3 => {
+            // replace an existing object, or fill a free number below max_id
+            if !ids.is_empty() && r.chance(3, 4) { Op::Set(*r.pick(&ids), gen_obj(r, 0, &rp)) }
+            else if doc.max_id >= 1 {
+                // a free NUMBER (two live objects never share a number with different generations)
+                let n = 1 + r.below(doc.max_id as u64) as u32;
+                if ids.iter().any(|k| k.0 == n && k.1 != 0) { return None; }
+                Op::Set((n, 0), gen_obj(r, 0, &rp))
+            } else { return None }
+        }
+        4 | 5 => {
+            if ids.is_empty() { return None; }
+            if safe_only { let s: Vec<ObjectId> = ids.iter().filter(|i| safe(i)).cloned().collect(); if s.is_empty() { return None; } Op::Del(*r.pick(&s)) }
+            else if r.chance(1, 10) { Op::Del((r.below(50) as u32, 0)) } else { Op::Del(*r.pick(&ids)) }
+        }
+        6 => Op::Prune,
+        7 => {
+            if safe_only { let e: Vec<ObjectId> = doc.objects.iter().filter(|(_, o)| matches!(o, Object::Stream(s) if s.content.is_empty())).map(|(k, _)| *k).collect();
+                if e.len() > 1 || !e.iter().all(|i| safe(i)) { return None; } }
+            Op::DelZero
+        }
+        8 => { let hi = max_num(doc); Op::Renum(if r.chance(1, 2) { 1 } else { hi + 1 + r.below(10) as u32 }) }
+        9 => {
+            if pages.is_empty() { return None; }
+            let n = 1 + r.below(pages.len() as u64) as u32;
+            if safe_only && !safe(&pages[n as usize - 1]) { return None; }
+            let mut v = vec![n];
+            if !safe_only && r.chance(1, 3) { v.push(r.below(pages.len() as u64 + 2) as u32); }
+            Op::DelPages(v)
+        }
+        _ => {
+            let target = if !pages.is_empty() && r.chance(5, 6) { *r.pick(&pages) } else if !ids.is_empty() { *r.pick(&ids) } else { (1, 0) };
+            Op::AddContent(target, (0..r.usize(8)).map(|_| r.byte()).collect())
+        }
+    })
+}
+
+fn run_program(c: &mut Ctx, r: &mut Rng, stream: &str, safe_only: bool, max_len: usize) {
+    let o = Opts { pages_in_id_order: r.chance(1, 2), bookmarks: false, dangling: if r.chance(1, 3) { Dangling::Safe } else { Dangling::None }, malformed: false, max_other: 8 };
+    let g = gen_doc(r, &o);
+    let mut doc = g.doc;
+    if r.chance(1, 4) { if let Some(l) = through_file(&doc) { doc = l; c.count("loaded_from_generated_file"); } }
+    let len = 1 + r.usize(max_len);
+    let mut key = String::new();
+    for step in 0..len {
+        let Some(op) = gen_op(r, &doc, safe_only) else { c.count("op_skipped"); continue };
+        let before = doc.clone();
+        let text = op_text(&op);
+        let req = format!("step {} {}", text, show_doc(&before));
+        c.count(&format!("op.{}", text.split(' ').next().unwrap()));
+        let sc = StepCtx { stream, step, op: text.clone() };
+        match guard(|| { let mut d = before.clone(); let ret = apply(&mut d, &op); (d, ret) }) {
+            Ok((d, ret)) => {
+                c.corr(req, format!("ok {} | {}", ret, show_doc(&d)));
+                oracle(c, &sc, &op, &before, &d, &ret);
+                doc = d;
+            }
+            Err((site, msg)) => {
+                c.corr(req, format!("panic {}", c10::panic_class(&msg)));
+                fail(c, &sc, &format!("panic@{}", site), &msg, &before);
+                break;
+            }
+        }
+        key.push_str(&text); key.push(';');
+    }
+    c.nontrivial(&format!("{}{}", key, show_doc(&doc)));
+    c.sample(json!({"stream": stream, "program": key.chars().take(300).collect::<String>(), "objects_at_end": doc.objects.len()}));
+}
+
+pub fn run(c: &mut Ctx) {
+    c.rule = "random programs (length <= 12 quick, <= 40 thorough) of new_object_id / add_object / set_object / delete_object / prune_objects / \
+delete_zero_length_streams / renumber_objects_with / delete_pages / add_page_contents with random arguments on random documents (C10's generator, 1 in 4 \
+saved and re-loaded); every step compared with the Lean `step` from the real pre-state and checked by the oracle. Non-trivial = a program that ran; distinct by program text + final document.".into();
+    witnesses(c);
+    let max_len = if c.quick() { 12 } else { 40 };
+    for i in 0..c.n(3000, 25000) {
+        let Some(mut r) = c.case("programs", i) else { continue };
+        run_program(c, &mut r, "programs", true, max_len);
+    }
+    // known-finding territory: arbitrary deletion targets
+    for i in 0..c.n(600, 5000) {
+        let Some(mut r) = c.case("programs_delete_any", i) else { continue };
+        run_program(c, &mut r, "programs_delete_any", false, max_len);
+    }
+}
+
+fn witnesses(c: &mut Ctx) {
+    // F-C11-a: the three probed positions
+    if let Some(_r) = c.case("witness_delete", 0) {
+        let mut d = c10::witness_doc_1to5();
+        // 5 0 R directly in the trailer (Info), directly in a stream dictionary, twice in an array
+        d.objects.insert((6, 0), Object::Stream(lopdf::Stream::new({ let mut x = Dictionary::new(); x.set("Meta", Object::Reference((5, 0))); x }, vec![1, 2, 3])));
+        d.objects.insert((7, 0), Object::Array(vec![Object::Reference((5, 0)), Object::Integer(1), Object::Reference((5, 0))]));
+        if let Some(Object::Dictionary(cat)) = d.objects.get_mut(&(1, 0)) { cat.set("S", Object::Reference((6, 0))); cat.set("A", Object::Reference((7, 0))); cat.set("I", Object::Reference((5, 0))); }
+        d.max_id = 7;
+        let before = d.clone();
+        let req = format!("step del 5 0 {}", show_doc(&before));
+        match guard(|| { let mut x = before.clone(); let r = x.delete_object((5, 0)); (x, r) }) {
+            Ok((x, ret)) => {
+                c.corr(req, format!("ok {} | {}", match &ret { Some(o) => format!("some {}", show_obj(o)), None => "none".into() }, show_doc(&x)));
+                let in_trailer = matches!(x.trailer.get(b"Info"), Ok(Object::Reference((5, 0))));
+                let in_stream = matches!(x.objects.get(&(6, 0)), Some(Object::Stream(s)) if matches!(s.dict.get(b"Meta"), Ok(Object::Reference((5, 0)))));
+                let in_array = matches!(x.objects.get(&(7, 0)), Some(Object::Array(a)) if a.iter().filter(|o| is_ref_to(o, (5, 0))).count() == 1);
+                let dict_clean = matches!(x.objects.get(&(1, 0)), Some(Object::Dictionary(cat)) if !cat.has(b"I"));
+                c.witness("F-C11-a", in_trailer && in_stream && in_array && dict_clean && !x.objects.contains_key(&(5, 0)),
+                    &format!("delete_object((5,0)): left in trailer /Info: {}, in stream dictionary: {}, second array occurrence: {}, plain dictionary entry removed: {}", in_trailer, in_stream, in_array, dict_clean));
+            }
+            Err((s, m)) => c.oracle_fail(&format!("panic@{}", s), &m, json!({"witness": "F-C11-a"})),
+        }
+    }
+    // F-C11-d: a page listed twice in the page tree: renumber_objects loses an object
+    if let Some(_r) = c.case("witness_renumber_duplicate_page", 0) {
+        let mut d = c10::witness_doc_1to5();
+        if let Some(Object::Dictionary(p)) = d.objects.get_mut(&(3, 0)) {
+            p.set("Kids", Object::Array(vec![Object::Reference((2, 0)), Object::Reference((4, 0)), Object::Reference((2, 0))]));
+        }
+        let before = d.clone();
+        if let Ok(x) = guard(|| { let mut x = before.clone(); x.renumber_objects(); x }) {
+            c.corr(format!("step renum 1 {}", show_doc(&before)), format!("ok unit | {}", show_doc(&x)));
+            c.witness("F-C11-d", x.objects.len() == 4 && before.objects.len() == 5,
+                &format!("Kids [2 0 R, 4 0 R, 2 0 R]: renumber_objects() leaves {} of {} objects", x.objects.len(), before.objects.len()));
+        }
+    }
+    // F-C11-b: set_object above max_id, then add_object overwrites it
+    if let Some(_r) = c.case("witness_set_above_max", 0) {
+        let d = c10::witness_doc_1to5();
+        let before = d.clone();
+        let req = format!("step set 6 0 i1 {}", show_doc(&before));
+        let res = guard(|| { let mut x = before.clone(); x.set_object((6, 0), Object::Integer(1)); let mid = x.clone(); let id = x.add_object(Object::Integer(2)); (mid, x, id) });
+        if let Ok((mid, x, id)) = res {
+            c.corr(req, format!("ok unit | {}", show_doc(&mid)));
+            c.corr(format!("step add i2 {}", show_doc(&mid)), format!("ok id {}_{} | {}", id.0, id.1, show_doc(&x)));
+            c.witness("F-C11-b", id == (6, 0) && x.objects.get(&(6, 0)) == Some(&Object::Integer(2)) && mid.max_id < 6,
+                "set_object((6,0), 1) on a document with max_id 5 leaves max_id at 5; the next add_object returns (6,0) and overwrites the object");
+        }
+    }
+    // F-C13-e / C11 domain: delete_pages with a cyclic Parent chain never returns
+    if let Some(_r) = c.case("witness_delete_pages_cycle", 0) {
+        let out = crate::iso::run_isolated("C11", &["cycle".to_string()], 3000, 512);
+        let hung = out.get(0).map(|s| s == "timeout").unwrap_or(false);
+        let d = cyclic_parent_doc();
+        c.corr(format!("step delpages 1 1 {}", show_doc(&d)), "err hang".into());
+        c.witness("F-C11-c", hung, &format!("delete_pages(&[1]) on a page tree whose root is its own Parent: worker outcome {:?}", out.get(0)));
+    }
+}
+
+fn cyclic_parent_doc() -> Document {
+    let mut d = c10::witness_doc_1to5();
+    if let Some(Object::Dictionary(p)) = d.objects.get_mut(&(3, 0)) { p.set("Parent", Object::Reference((3, 0))); }
+    d
+}
+
+pub fn worker_case(case: &str) -> String {
+    match case {
+        "cycle" => { let mut d = cyclic_parent_doc(); d.delete_pages(&[1]); "returned".into() }
+        _ => "bad-case".into(),
+    }
+}
+#[allow(dead_code)]
+fn _unused(_: BTreeMap<u8, u8>) {}
